@@ -6,7 +6,7 @@ from ..rng import Rng, derive
 from .base import Prop, verdict, bump, event_kinds, ngrams
 
 KINDS = ['timelimit', 'maxiter', 'singular', 'linesearch']
-BACKUPS = ['none', 'rescues', 'fails', 'fsolve']     # fsolve: scipy.optimize.fsolve as the (documented) backup solver, run for real
+BACKUPS = ['none', 'rescues', 'fails', 'fsolve', 'krylov']     # fsolve / krylov: scipy.optimize.fsolve / newton_krylov as the (documented) backup solver, run for real
 
 
 def plan_for(fr):
@@ -21,6 +21,8 @@ def scn_for(scn, fr):
     s['run']['convergence_error'] = bool(fr['ce'])
     if fr['backup'] == 'fsolve':
         s['run']['backup'] = {'solver': 'fsolve', 'options': {}}
+    elif fr['backup'] == 'krylov':
+        s['run']['backup'] = {'solver': 'krylov', 'options': {'maxiter': 25, 'f_tol': 1e-6}}
     else:
         s['run']['backup'] = None if fr['backup'] == 'none' else {'options': {'MAXITER': 500}}
     return s
@@ -255,7 +257,7 @@ class C16(Prop):
             # root) the run may legitimately continue on another trajectory.  The statement asks for well-formed tables and, before the
             # rescued step, the same rows; equality afterwards is checked only where the solution is unique and well-conditioned.
             fragile = (scn['options'].get('demand_model') == 'PDD' or any(l['type'] in ('pump', 'valve') or l.get('cv') for l in scn['links'])
-                       or fr['backup'] == 'fsolve')
+                       or fr['backup'] in ('fsolve', 'krylov'))
             if fired and out.results.error_code is not None and fragile:
                 # the run failed naturally later on its own trajectory: it said so; nothing further to compare
                 bump(c, 'rescued.failed_later_on_fragile_world')
